@@ -77,6 +77,8 @@ package graph
 //@   loop range g.EdgesFrom(u) #1: invariant[C05:dfs-finished-closed-so-far] finishedClosed(g, info) && $dfsCnt >= old($dfsCnt) && !old(info[u].Visited) && !black(info, u)
 //@        && (forall x int :: 0 <= x && x < len(info) && old(black(info, x)) ==> black(info, x) && $dfsFin[x] == old($dfsFin[x]))
 //@   ensures[C05:cycle-nodes-in-range] forall i int :: 0 <= i && i < len(cycle) ==> 0 <= cycle[i] && cycle[i] < gorder(g)
+//@   ensures[C05:cycle-ends-where-it-starts] len(cycle) > 0 ==> len(cycle) >= 2 && cycle[0] == cycle[len(cycle) - 1]
+//@   ensures[C05:cycle-steps-are-edges] forall i int :: 0 <= i && i + 1 < len(cycle) ==> gedge(g, cycle[i], cycle[i+1])
 //@   ensures[C05:cycle-is-closed-path] len(cycle) > 0 ==> closedPath(g, cycle)
 //@   ensures[C05:no-cycle-restores-stack] len(cycle) == 0 ==> (forall v int :: 0 <= v && v < len(info) ==> info[v].OnStack == old(info[v].OnStack))
 //@   ensures[C05:visited-only-grows] forall v int :: 0 <= v && v < len(info) && old(info[v].Visited) ==> info[v].Visited
